@@ -90,11 +90,16 @@ func (s *Stats) Class(classes ...string) {
 	}
 }
 
-// NonTrivial records a non-trivial identity without counting a case.
+// NonTrivial records one more execution of the real code belonging to the
+// current generated case (e.g. the same query on another transport) that is
+// non-trivial under its own identity.  It counts as an evaluation of its own, so
+// that the number of distinct non-trivial executions never exceeds the number
+// of evaluations.
 func (s *Stats) NonTrivial(ntKey string) {
 	s.mu.Lock()
 	defer s.mu.Unlock()
 
+	s.evaluations++
 	h := fnv.New64a()
 	_, _ = h.Write([]byte(ntKey))
 	s.nontrivial[h.Sum64()] = struct{}{}
